@@ -199,6 +199,39 @@ def gen_graph(rng, cyc=False, rich=True, nmin=3, nmax=7, generic=False):
         cur[pn] = rng.choice([d["ver"] for d in decls if d["name"] == pn])
         g["names"] = names + [pn]
         g["prefix_pair"] = [n0, pn]
+    if rich and rng.random() < 0.15:
+        # a product whose name starts with eups_ (EUPS_EXTRAS_DIR, SETUP_EUPS_EXTRAS) and a table that envSets EUPS_FOO:
+        # not among the four protected variables (EUPS_DIR/PATH/PKGROOT/SHELL) — unsetup must unset them through the
+        # emitted commands.  Some product may depend on it.
+        en = rng.choice(["eups_extras", "eups_x"])
+        vs_e = sorted(set(rng.sample(pool, rng.randint(1, 2))))
+        for v in vs_e:
+            t = gen_contribs(rng, en, pathvars, rich) + [{"a": "set", "var": "EUPS_FOO", "own": rng.random() < 0.5, "val": "/foo"}]
+            decls.append({"name": en, "ver": v, "sub": "Linux/%s/%s" % (en, v), "table": t})
+        cur[en] = rng.choice(vs_e)
+        if rng.random() < 0.5:
+            host = rng.choice([d for d in decls if d["name"] in names and not d.get("shared")] or [decls[0]])
+            host["table"].append({"a": "dep", "name": en, "opt": rng.random() < 0.3, "just": False, "spec": {"kind": "bare"}, "tags": []})
+        g["names"] = g["names"] + [en]
+        g["eups_named"] = en
+    if rich and rng.random() < 0.15:
+        # a VERSION NAMED LIKE A RECOGNISED TAG (beta / current) while the same-named tag points at another version:
+        # findSetupVersion must take the SETUP_ record's word for a declared version and not resolve the tag.  A product of
+        # its own (named versions have no place in the numeric order of the relational specs), requested bare / explicitly
+        tn = "tn"
+        tagname = rng.choice(["beta", "current"])
+        other = rng.choice(pool)
+        for v in (tagname, other):
+            decls.append({"name": tn, "ver": v, "sub": "Linux/%s/%s" % (tn, v), "table": gen_contribs(rng, tn, pathvars, rich)})
+        g["tags"][tagname][tn] = other
+        if tagname != "current":
+            cur[tn] = rng.choice([tagname, other])
+        if rng.random() < 0.4:
+            host = rng.choice([d for d in decls if d["name"] in names and not d.get("shared")] or [decls[0]])
+            host["table"].append({"a": "dep", "name": tn, "opt": False, "just": False,
+                                  "spec": rng.choice([{"kind": "bare"}, {"kind": "explicit", "v": other}, {"kind": "explicit", "v": tagname}]), "tags": []})
+        g["names"] = g["names"] + [tn]
+        g["tag_named"] = [tn, tagname, other]
     if rich and rng.random() < 0.08:
         # a "meta" product: every version declared without a directory (PROD_DIR = none); its tables hold literals only
         n0 = rng.choice([n for n in names if n not in (g.get("shared_table"), g.get("generic"))] or names)
@@ -274,6 +307,8 @@ def gen_request(rng, g, op=None, plain=False):
     req["path"] = [0] if g.get("nstacks", 1) == 1 else rng.choice([[0], [0], [1, 0], [1, 0], [0, 1], [1]])
     # the entry point: eups.app.setup called directly, or the command line of `eups_setup` (setupcmd.EupsSetup:
     # option parsing, -j / -S / -k / -t / -E / -u / -Z glue, the printed command text)
+    if g.get("tag_named") and req["name"] == g["tag_named"][0] and req["ver"] is not None and "e" in req["ver"]:
+        req["ver"] = None         # named versions are requested bare or explicitly (the order of names is C10's)
     if req["name"] == g.get("generic"):
         req["keep"] = False       # (see add_second_stack) the already-set-up fallback of the first flavor round is not modelled
     req["cli"] = rng.random() < 0.3
@@ -353,6 +388,13 @@ def aim_new_classes(rng, g, hist, plain=False):
         if rng.random() < 0.5:
             second["ver"] = {"v": v0} if any(d["name"] == n0 and d["ver"] == v0 for d in g["decls"]) else None
         hist[:1] = [mk(pn, {"v": v0}), second]
+    if g.get("tag_named") and rng.random() < 0.7:
+        # the tag-named version is set up, then replaced by the version the tag points at (and back)
+        tn, tagname, other = g["tag_named"]
+        hist[:0] = [mk(tn, {"v": tagname}), mk(tn, {"v": other})] + ([mk(tn, {"v": tagname})] if rng.random() < 0.3 else [])
+    if g.get("eups_named") and rng.random() < 0.5:
+        en = g["eups_named"]
+        hist[:0] = [mk(en), dict(mk(en), op="unsetup")]
     if g.get("shared_table") and rng.random() < 0.6:
         # switch between two versions of the product whose versions share one table file
         ns = g["shared_table"]
@@ -1182,7 +1224,10 @@ def env_ok(G_, env, exact):
 # ---- a second, model-free reading of resolution, for the closure clause --------------------------
 
 def vkey(v):
-    return [int(x) for x in v.split(".")]
+    try:
+        return [int(x) for x in v.split(".")]
+    except ValueError:
+        return [-1]          # a named version (tag-named class): never the target of a relational request here
 
 
 def vmatch(v, e):
@@ -1533,6 +1578,11 @@ def evaluate(ctx, pid, cases, stats, workers=12, extra=None):
                 ctx.hist("mixed_setup_types")
             if req.get("types"):
                 ctx.hist("setup_type=" + ",".join(req["types"]))
+            if im["outcome"] == "ok" and req["op"] == "unsetup" and case["graph"].get("eups_named") and \
+                    case["graph"]["eups_named"] in canon_env(G_, r["before"])["recs"] and \
+                    case["graph"]["eups_named"] not in canon_env(G_, r["after"])["recs"]:
+                ctx.hist("class_eups_named_unsetup")
+                stats["class_eups_named"] = stats.get("class_eups_named", 0) + 1
             if im["outcome"] == "ok" and req["op"] == "setup":
                 b0 = canon_env(G_, r["before"])["recs"]
                 a0 = canon_env(G_, r["after"])["recs"]
@@ -1545,6 +1595,10 @@ def evaluate(ctx, pid, cases, stats, workers=12, extra=None):
                 if st and st in b0 and a0.get(st) not in (None, b0[st]):
                     ctx.hist("class_shared_table_switch")
                     stats["class_shared_table_switch"] = stats.get("class_shared_table_switch", 0) + 1
+                tg = g_.get("tag_named")
+                if tg and b0.get(tg[0]) == tg[1] and a0.get(tg[0]) not in (None, tg[1]):
+                    ctx.hist("class_tag_named_version_replaced")
+                    stats["class_tag_named"] = stats.get("class_tag_named", 0) + 1
                 gn = g_.get("generic")
                 if gn and req["keep"] and gn in b0 and gn != req["name"] and gn in G_.reach([req["name"]]):
                     ctx.hist("class_keep_generic")
@@ -1591,6 +1645,175 @@ def replay_case(ctx, pid, rp):
                 fails.append({"step": i, "clause": clause, "class": cls, "detail": detail})
     return {"input": case, "impl_output": impl, "model_output": model,
             "agree": [compare(a, b) for a, b in zip(impl, model)], "fails": fails}
+
+
+
+# ================================================================================================
+# sessions: ONE Eups object serving several top-level Eups.setup calls (API use)
+# ================================================================================================
+
+def gen_session_case(rng):
+    """keep / max_depth / tags / setup type / EUPS_PATH belong to the object; 2-4 calls `E.setup(name, version, fwd)` on it.
+    What must not carry over from a finished call into the next traversal: alreadySetupProducts and the reasons in it
+    (after `setup a` with setupRequired(c 1.0), `setup b` with setupRequired(c) designates the current c; after
+    `setup d 1.0`, `setup e` with setupRequired(d 2.0) gives d 2.0).  Half of the sessions are aimed at these two shapes."""
+    g = gen_graph(rng, cyc=False)
+    base = gen_request(rng, g, op="setup", plain=True)
+    base.update(cli=False, inexact=rng.random() < 0.2, types=["build"] if rng.random() < 0.15 else [],
+                keep=False, max_depth=rng.choice([-1, -1, -1, 2]))
+    G_ = G(g)
+    def mk(name, ver, op="setup"):
+        return dict(base, name=name, ver=ver, op=op)
+    hist = []
+    lines = [(n, v, a) for (n, v), fl in G_.flat.items() if unvk(v)[1] == 0 for gd, a in fl if a["a"] == "dep" and gd == "always"
+             and a["name"] in G_.names and not a.get("tags") and not a.get("keep")]
+    r = rng.random()
+    if r < 0.3 and lines:
+        # setup x (its table asks for m in an explicit version), then setup y whose table asks for m differently
+        expl = [(n, v, a) for n, v, a in lines if a["spec"]["kind"] == "explicit"]
+        if expl:
+            n, v, a = rng.choice(expl)
+            others = [(n2, v2, a2) for n2, v2, a2 in lines if a2["name"] == a["name"] and n2 != n and a2["spec"] != a["spec"]]
+            if others:
+                n2, v2, a2 = rng.choice(others)
+                hist = [mk(n, {"v": unvk(v)[0]}), mk(n2, {"v": unvk(v2)[0]})]
+    elif r < 0.6 and lines:
+        # setup m v on the command line (reason commandLine), then setup y whose table asks for another version of m
+        expl = [(n, v, a) for n, v, a in lines if a["spec"]["kind"] == "explicit"]
+        if expl:
+            n, v, a = rng.choice(expl)
+            vs = [unvk(w)[0] for w in G_.versions_on(a["name"], [0]) if unvk(w)[0] != a["spec"]["v"]]
+            if vs:
+                hist = [mk(a["name"], {"v": rng.choice(vs)}), mk(n, {"v": unvk(v)[0]})]
+    while len(hist) < rng.randint(2, 4):
+        q = gen_request(rng, g, plain=True)
+        hist.append(mk(q["name"], q["ver"], q["op"]))
+    for h in hist:
+        h["path"] = base["path"]
+    return {"graph": g, "prior": {"PATH": BASE_PATH}, "prior_mode": "clean", "history": hist, "session": True}
+
+
+def _do_session(Ss, ud, env, hist):
+    """Runs in a forked child: one Eups object, several top-level calls."""
+    req = hist[0]
+    for k in list(os.environ):
+        del os.environ[k]
+    os.environ.update(env)
+    os.environ.update({"EUPS_PATH": ":".join(Ss[k] for k in req_path(req)), "EUPS_USERDATA": ud, "EUPS_SHELL": "sh", "EUPS_FLAVOR": "Linux",
+                       "HOME": ud, "USER": "verif"})
+    M = common.eups_mod("Eups")
+    U = common.eups_mod("utils")
+    U.stderr = U.stdwarn = U.stdinfo = U.stdok = io.StringIO()
+    nest = [0, 0]
+    orig = M.Eups.setup
+
+    def counted(self, *a, **k):
+        nest[0] += 1
+        nest[1] = max(nest[1], nest[0])
+        try:
+            if nest[0] > FUEL:
+                raise _TooDeep()
+            return orig(self, *a, **k)
+        finally:
+            nest[0] -= 1
+    M.Eups.setup = counted
+    outs = []
+    with contextlib.redirect_stderr(io.StringIO()), contextlib.redirect_stdout(io.StringIO()):
+        E = M.Eups(readCache=False, quiet=1, keep=req["keep"], max_depth=req["max_depth"],
+                   setupType=" ".join(req.get("types") or []))
+        E.selectVRO(tag=list(req["tags"]) or None, versionName=None, inexact_version=req["inexact"])
+        vro = list(E.getPreferredTags())
+        for h in hist:
+            before = dict(os.environ)
+            out = {"exc": None, "vro": vro, "before": before}
+            nest[1] = 0
+            try:
+                ok, _v, _reason = E.setup(h["name"], ver_text(h["ver"]) if h["op"] == "setup" else None, h["op"] == "setup")
+                out["outcome"] = "ok" if ok else "notfound"
+            except _TooDeep:
+                out["outcome"] = "deep"
+            except Exception as e:  # noqa
+                out["outcome"] = "raised"
+                out["exc"] = type(e).__name__
+            out["env"] = dict(os.environ)
+            out["aliases"] = dict(E.aliases)
+            out["unaliased"] = sorted(k for k in E.oldAliases if k not in E.aliases)
+            out["nest"] = nest[1]
+            outs.append(out)
+            if out["outcome"] != "ok":
+                break
+    return outs
+
+
+def run_session(case):
+    root = common.scratch("session")
+    try:
+        Ss, ud = install(case["graph"], root)
+        def subst(v):
+            v = v.replace("$S", Ss[0])
+            return v.replace("$T", Ss[1]) if len(Ss) > 1 else v
+        env = {k: subst(v) for k, v in case["prior"].items()}
+        r = common.in_child(_do_session, Ss, ud, env, case["history"], _timeout=120)
+        if r[0] != "ok":
+            return [{"outcome": "harness:" + str(r[:3])}]
+        outs = []
+        for o in r[1]:
+            outs.append({"before": strip(o["before"], Ss), "outcome": o["outcome"], "exc": o["exc"], "vro": o["vro"], "nest": o["nest"],
+                         "after": strip(o["env"], Ss) if o["outcome"] != "deep" else {}, "aliases": o["aliases"],
+                         "unaliased": o["unaliased"], "cmds": [] if o["outcome"] == "ok" else None,
+                         "shell": strip(o["env"], Ss), "shell_defs": [], "shell_undefs": []})
+        return outs
+    finally:
+        common.rmtree(root)
+
+
+def evaluate_sessions(ctx, pid, cases, stats, workers=12):
+    """Sessions against the model's op "session"; oracle (ii): the per-request clauses of `pid` on every call that succeeded
+    (evaluated on the in-process environment: no command list here)."""
+    common.import_eups()
+    raws = common.parallel_map(run_session, cases, workers=workers)
+    reqs = []
+    for case, raw in zip(cases, raws):
+        G_ = G(case["graph"])
+        if "before" not in raw[0]:
+            raise common.InfraError("session could not be run: %r" % (raw[0],))
+        h0 = case["history"][0]
+        m = model_request(G_, model_db(G_), raw[0]["before"], h0)
+        m["op"] = "session"
+        m["steps"] = [{"op": h["op"], "name": h["name"], "ver": h["ver"]} for h in case["history"]]
+        reqs.append(m)
+    answers = ctx.lean.ask_many(reqs)
+    for case, raw, ans in zip(cases, raws, answers):
+        G_ = G(case["graph"])
+        inp = case_input(case)
+        inp["session"] = True
+        if "bad-op" in ans or "steps" not in ans:
+            raise common.InfraError("driver rejected a session: %r" % (ans,))
+        nontrivial = False
+        for i, r in enumerate(raw):
+            im = canon_impl(G_, dict(r, cmds_raw=None))
+            im.pop("sh", None)
+            a = ans["steps"][i] if i < len(ans["steps"]) else {"out": "missing", "vro": ans["vro"]}
+            mo = canon_model(dict(a, vro=ans["vro"])) if a["out"] != "missing" else {"outcome": "missing"}
+            for d in compare(im, mo):
+                ctx.disagree("session." + d, dict(inp, step=i), im, mo)
+            ctx.hist("session_outcome=" + im["outcome"])
+            if im.get("deep") or im["outcome"] != "ok":
+                continue
+            b, a_ = canon_env(G_, r["before"]), canon_env(G_, r["after"])
+            nontrivial = nontrivial or a_ != b
+            if i >= 1 and any(a_["recs"].get(n) not in (None, v) for n, v in b["recs"].items()):
+                ctx.hist("class_session_switch")
+                stats["class_session_switch"] = stats.get("class_session_switch", 0) + 1
+            req = case["history"][i]
+            mixed = False
+            for prop, clause, cls, detail in check_request(G_, req, r, stats, mixed=mixed):
+                if prop != pid:
+                    continue
+                ctx.hist("clause_failed=" + clause)
+                ctx.fail(clause, dict(inp, step=i), im, mo, note="[session] " + detail, finding=cls)
+        ctx.case(key=inp, nontrivial=nontrivial)
+        ctx.hist("session")
 
 
 # ================================================================================================
